@@ -22,12 +22,13 @@ type Op struct {
 }
 
 type Case struct {
-	Queue    string `json:"queue"`    // dedup | wdedup
-	Ops      []Op   `json:"ops"`      // one per caller
-	Outcomes []int  `json:"outcomes"` // per upstream call number: 0 ok/data/true, 1 missing/false, 2 error
-	Choices  []int  `json:"choices"`  // the schedule (controlled mode)
-	Free     bool   `json:"free"`     // free-running mode: no controller, upstream sleeps Delays
-	Delays   []int  `json:"delays"`   // microsecond delays per upstream call (free mode)
+	Queue    string `json:"queue"`           // dedup | wdedup
+	Ops      []Op   `json:"ops"`             // one per caller
+	Outcomes []int  `json:"outcomes"`        // per upstream call number: 0 ok/data/true, 1 missing/false, 2 error
+	Choices  []int  `json:"choices"`         // the schedule (controlled mode)
+	Free     bool   `json:"free"`            // free-running mode: no controller, upstream sleeps Delays
+	Delays   []int  `json:"delays"`          // microsecond delays per upstream call (free mode)
+	Crowd    *Crowd `json:"crowd,omitempty"` // crowd mode (crowd_test.go): many distinct IDs in flight, then duplicates for one more
 }
 
 const nIDs = 4
@@ -162,6 +163,9 @@ func (u *upstream) String() string                    { return "scripted" }
 
 func genCase(t *rapid.T) Case {
 	var c Case
+	if rapid.IntRange(0, 15).Draw(t, "crowd") == 0 {
+		return Case{Crowd: genCrowd(t)}
+	}
 	c.Queue = rapid.SampledFrom([]string{"dedup", "wdedup", "wdedup"}).Draw(t, "queue")
 	k := rapid.IntRange(2, 5).Draw(t, "k")
 	oneID := rapid.Bool().Draw(t, "oneid")
@@ -223,6 +227,10 @@ func sameResult(kind string, r result, u *upCall, storeChunk *desync.Chunk) bool
 }
 
 func run(c Case) (o hx.Outcome) {
+	if c.Crowd != nil {
+		cc := *c.Crowd
+		return runCrowd(&cc)
+	}
 	k := len(c.Ops)
 	if k == 0 {
 		return o
@@ -549,10 +557,10 @@ func fmtCalls(calls []*upCall, ret []int) string {
 var spec = &hx.Spec[Case]{
 	ID:    "C12",
 	Level: "exploration",
-	Rule: "cases = (DedupQueue or WriteDedupQueue; 2..5 callers each GetChunk/HasChunk/StoreChunk on one of 4 IDs (two digests, one ID sharing the first 8 bytes of the first, one sharing the last 24 bytes of the second); upstream outcome per call: data/missing/error; a schedule = which parked caller advances at each step, the harness owning every hook site and every upstream call) plus a free-running mode; " +
+	Rule: "cases = (DedupQueue or WriteDedupQueue; 2..5 callers each GetChunk/HasChunk/StoreChunk on one of 4 IDs (two digests, one ID sharing the first 8 bytes of the first, one sharing the last 24 bytes of the second); upstream outcome per call: data/missing/error; a schedule = which parked caller advances at each step, the harness owning every hook site and every upstream call) plus a free-running mode; plus a crowd mode (1 case in 16): N in {0..1025: powers of two and neighbours} requests of one kind for distinct IDs held in flight at the upstream gate, then 2..5 callers (and, for stores, an overlapping reader) for one more ID, order of arrival owned by the harness; " +
 		"small configurations (2 and 3 callers on one ID) have all schedules enumerated; non-trivial = a caller was served by another caller's upstream request and either joined between markDone and delete or received an error/missing result; distinct by (queue, ops, outcomes, release order)",
 	Assumptions: []string{"schedules are exhaustive only at hook-site granularity (races inside loadOrStore are covered by the free-running mode only)", "a de-duplicated request's lifetime ends when its owner returns"},
-	Required:    []string{"mode:controlled", "mode:free", "had-waiter", "joined-between-markdone-and-delete", "error-or-missing-with-waiter", "read-overlaps-write", "queue:dedup", "queue:wdedup", "look-alike-ids:same-kind"},
+	Required:    []string{"mode:controlled", "mode:free", "had-waiter", "joined-between-markdone-and-delete", "error-or-missing-with-waiter", "read-overlaps-write", "queue:dedup", "queue:wdedup", "look-alike-ids:same-kind", "mode:crowd", "crowd", "crowd:n>=128", "crowd:reader"},
 	Gen:         genCase,
 	Run:         run,
 	Watchdog:    60 * time.Second,
